@@ -4,8 +4,8 @@ import Ixd.GCComplete
 
 What the policy retains before a collection it retains after it (`retained_mono`: the keep table only looks at blobs
 that survive, or at the absence of blobs, which a collection cannot undo); so, by the exactness theorems, a second
-collection deletes no blob (`gc_idem_blobs`), prunes no top-level entry (`gc_idem_manifests`) and no child entry that
-has a blob (`gc_idem_children`).
+collection deletes no blob (`gc_idem_blobs`), prunes no top-level entry (`gc_idem_manifests`) and no child record
+(`gc_idem_children`; since F41 the first pass leaves no child record without a blob).
 -/
 namespace Ixd
 
@@ -176,23 +176,33 @@ theorem gc_idem_manifests {p : Policy} {ix : Index} {bs : List Blob} (hU : SubjU
       rw [← hd]
       exact getBlob_of_mem hb (hz b hb)
 
-/-- C06: … and no child entry that has a blob -/
+/-- C06: … and no child record (after F41 every child record left by the first pass has a blob, or the empty digest) -/
 theorem gc_idem_children {p : Policy} {ix : Index} {bs : List Blob} (hU : SubjUnique ix.manifests) (hz : ∀ b ∈ bs, b.dig ≠ 0)
     (hn : (keysOf bs).Nodup) :
-    ((gc p (gc p ix bs).index (gcBlobs p ix bs)).index.children.filter (fun c => (getBlob (gcBlobs p ix bs) c.dig).isSome)).Perm
-      ((gc p ix bs).index.children.filter (fun c => (getBlob (gcBlobs p ix bs) c.dig).isSome)) := by
-  refine ((gc_children p _ _ (gcBlobs_nz hz)).filter _).trans ?_
-  rw [List.filter_filter]
+    (gc p (gc p ix bs).index (gcBlobs p ix bs)).index.children.Perm (gc p ix bs).index.children := by
+  refine (gc_children p _ _ (gcBlobs_nz hz)).trans ?_
   apply List.Perm.of_eq
-  apply List.filter_congr
-  intro e _
-  by_cases hb : (getBlob (gcBlobs p ix bs) e.dig).isSome = true
-  · simp only [hb, Bool.true_and]
+  apply List.filter_eq_self.mpr
+  intro c hc
+  have hbk : backedB (gcBlobs p ix bs) c = true := by
+    unfold backedB
+    by_cases hnz : c.dig = 0
+    · simp [hnz]
+    · obtain ⟨_, hk⟩ := gc_children_backed' hz hc hnz
+      rw [getBlob_gcBlobs hk]
+      obtain ⟨b, hb, hd, _⟩ := mem_gc_blobs.mp hk
+      cases hx : getBlob bs c.dig with
+      | none => rw [← hd] at hx; exact absurd hx (getBlob_of_mem hb (hz b hb))
+      | some b' => simp
+  have hsv : survives p (gc p ix bs).index (gcBlobs p ix bs) c = true := by
     apply survives_of_kept
     · intro b hbm _
       exact second_keepB hU hz hn b hbm
-    · left
-      intro hnone
-      simp [hnone] at hb
-  · simp [hb]
+    · unfold backedB at hbk
+      by_cases hnz : c.dig = 0
+      · exact Or.inr hnz
+      · left
+        intro hnone
+        simp [hnone, hnz] at hbk
+  simp [hsv, hbk]
 end Ixd
